@@ -11,6 +11,7 @@ from collections import defaultdict
 from functools import partial
 import inspect
 from itertools import chain
+import keyword
 import operator as op
 import re
 import string
@@ -68,6 +69,29 @@ _TYPE_MAPPING = {
     "null": Null,
     "number": Number,
     "string": String,
+}
+
+
+# Names which generated modules import or use, and so may not name a class.
+_RESERVED_TITLES = set(keyword.kwlist) | {
+    "Any",
+    "List",
+    "Union",
+    "Maybe",
+    "Property",
+    "AllOf",
+    "AnyOf",
+    "Array",
+    "Boolean",
+    "Element",
+    "Integer",
+    "Not",
+    "Nothing",
+    "Null",
+    "Number",
+    "Object",
+    "OneOf",
+    "String",
 }
 
 
@@ -313,7 +337,15 @@ def _parse_object(
     title = schema.get("title", schema.get("_x_autotitle"))
     if not title:
         raise SchemaParseError.missing_title(schema)
-    title = _title_format(title)
+    title = _title_format(title) or _title_format(
+        schema.get("_x_autotitle", "")
+    )
+    if not title:
+        raise SchemaParseError.missing_title(schema)
+    if title[0].isdigit():
+        title = f"_{title}"
+    if title in _RESERVED_TITLES:
+        title = f"{title}_"
     properties = schema.get("properties", {})
     declared = {prop.source for prop in properties.values()}
     for key in schema.get("required", []):
@@ -558,7 +590,7 @@ def _title_format(name: str) -> str:
     words = list(filter(None, re.split("[^a-zA-Z0-9]", name)))
     segments = chain.from_iterable(
         [
-            re.findall("[A-Z][^A-Z]*", word[0].upper() + word[1:])
+            re.findall("[A-Z0-9][^A-Z]*", word[0].upper() + word[1:])
             for word in words
         ]
     )
